@@ -160,6 +160,12 @@ pub fn gen_op_case(t: &mut Tape) -> OpCase {
                 };
                 items.push(it);
             }
+            // the same node passed in two argument positions (what two equal environment paths produce)
+            if items.len() >= 2 && t.chance(1, 5) {
+                let k = t.below_usize(items.len());
+                let j = t.below_usize(items.len());
+                items[k] = items[j];
+            }
             let term = if t.chance(1, 8) { d.atom(&[7]) } else { d.nil() };
             d.list_term(&items, term);
             d
@@ -181,10 +187,44 @@ pub fn gen_op_case(t: &mut Tape) -> OpCase {
     OpCase { op, args, flags: t.word(), max_cost }
 }
 
+/// `(op P P ...)` with the same environment path in several argument positions: the operator receives the identical
+/// node (atom or pair) more than once
+pub fn gen_same_path(t: &mut Tape) -> ProgCase {
+    let env = gen_tree(t, &TreeCfg { max_nodes: 10, max_atom: 40, reprs: true, dup_atoms: 20, deep: 0 });
+    let mut d = Dag::new();
+    let path: Vec<u8> = match t.below(6) {
+        0 => vec![1],
+        1 => vec![2],
+        2 => vec![3],
+        3 => vec![5],
+        4 => vec![6],
+        _ => vec![1 + t.below(15) as u8],
+    };
+    let table = op_table();
+    let opname = table[t.below_usize(table.len())].0;
+    let code = crate::checks::c10::opcode(opname).unwrap_or(vec![9]);
+    let n = 1 + t.below_usize(3);
+    let mut items = Vec::new();
+    for k in 0..n {
+        if k > 0 && t.chance(1, 6) {
+            let b = crate::r#gen::atoms::gen_atom(t, 20);
+            let one = d.atom(&[1]);
+            let a = d.atom(&b);
+            items.push(d.pair(one, a));
+        } else {
+            items.push(d.atom(&path));
+        }
+    }
+    let l = d.list(&items);
+    let o = d.atom(&code);
+    d.pair(o, l);
+    ProgCase { p: crate::r#gen::programs::GenProg { prog: d, env, info: Default::default() }, flags: t.word(), budgets: vec![t.u64()] }
+}
+
 pub fn run(r: &mut Runner) {
     r.rule = "part programs: well-typed, near-valid (mutation layer) and fully random programs x random 32-bit flag words x budgets <= 2*10^8 (0 only for programs that cannot loop); non-trivial = at least two operator applications were executed; distinct by case. \
         part operators: every operator function of ChiaDialect called directly on arbitrary argument trees (lists of atoms in every representation, trees, valid points, improper lists, bare atoms) x random flag words x budgets. \
-        Oracle: validity - the call returns, does not panic and never yields EvalErr::InternalError."
+        part same-path: (op P P ..) for every operator with one environment path repeated, so the identical node (atom or pair) reaches several argument positions. Oracle: validity - the call returns, does not panic and never yields EvalErr::InternalError."
         .into();
     let cfg = ProgCfg { mutate_pct: 40, raw_pct: 15, reprs: true, ..Default::default() };
     let n = r.n(40_000, 2_000_000);
@@ -203,4 +243,6 @@ pub fn run(r: &mut Runner) {
     );
     let n = r.n(60_000, 3_000_000);
     r.run_part("operators", n, 200, gen_op_case, test_op);
+    let n = r.n(20_000, 500_000);
+    r.run_part("same-path", n, 120, gen_same_path, test_prog);
 }
